@@ -5,7 +5,7 @@ adds the shim packages as virtual packages inside the memberlist module.
 /repo itself is never modified."""
 import json, os, re, glob, sys, shutil
 repo = os.environ.get('VERIF_REPO', '/repo')
-out = sys.argv[1] if len(sys.argv) > 1 else '/verif/.build'
+out = os.path.abspath(sys.argv[1] if len(sys.argv) > 1 else '/verif/.build')
 ovdir = os.path.join(out, 'ov')
 shutil.rmtree(ovdir, ignore_errors=True)
 os.makedirs(ovdir, exist_ok=True)
